@@ -23,6 +23,7 @@ func checkC11(w *World, r *Report) {
 	r.Rule("R11.3", "probe patterns agree on both ends", 2)
 	r.Rule("R11.4", "handshake loops make progress", 8)
 	r.Rule("R11.5", "fall-back codecs survive case folding", 3)
+	r.Rule("R11.6", "the committed query type passed its probe", 1)
 
 	cdc := w.Named("internal/streams/dns", "ClientDnsConnection")
 	hsM := methodOf(cdc, "Handshake")
@@ -257,6 +258,60 @@ func checkC11(w *World, r *Report) {
 	}
 	if nfb == 0 {
 		r.Undecided("R11.5", "fallbacks", "-", "no unprobed codec assignment found")
+	}
+
+	// ---------------------------------------------------------------- R11.6: the query type committed is one whose probe succeeded
+	if fn := w.SSAFunc(methodOf(cdc, "AutoDetectQueryType")); fn != nil {
+		probe := methodOf(cdc, "SendQueryTypeTest")
+		qtF := fieldOf(w.Named("internal/streams/dns/util", "UpstreamConfig"), "QueryType")
+		key := "method:(*streams/dns.ClientDnsConnection).AutoDetectQueryType|commit-probed-type"
+		bad := ""
+		ncommit := 0
+		allInstrs(fn, func(in ssa.Instruction) {
+			st, ok := in.(*ssa.Store)
+			if !ok {
+				return
+			}
+			fa, ok := st.Addr.(*ssa.FieldAddr)
+			if !ok || fieldVarOf(fa) != qtF || qtF == nil {
+				return
+			}
+			ncommit++
+			// the pointer stored is the address of a local; every non-zero store into that local must be a probed type
+			al, ok := st.Val.(*ssa.Alloc)
+			if !ok {
+				bad = fmt.Sprintf("%s: the committed query type is not the detection's own result variable", w.Pos(st.Pos()))
+				return
+			}
+			for _, s2 := range storesTo(al) {
+				if z, isC := constIntVal(s2.Val); isC && z == 0 {
+					continue
+				}
+				// s2.Val = q; must be dominated by SendQueryTypeTest(q, ...) == nil
+				okq := false
+				for _, c := range callsIn(fn) {
+					call, isCall := c.(*ssa.Call)
+					if !isCall || sCallee(c) != probe || len(call.Call.Args) < 2 {
+						continue
+					}
+					sameQ := false
+					for _, r1 := range provenance(call.Call.Args[1], provOpts{}) {
+						for _, r2 := range provenance(s2.Val, provOpts{}) {
+							if r1 == r2 {
+								sameQ = true
+							}
+						}
+					}
+					if sameQ && dominatedByCondNil(fn, s2, func(v ssa.Value) bool { x, _, ok := nilTest(v); return ok && x == ssa.Value(call) }) {
+						okq = true
+					}
+				}
+				if !okq {
+					bad = fmt.Sprintf("%s: a query type is recorded as working without its own probe having succeeded", w.Pos(s2.Pos()))
+				}
+			}
+		})
+		r.Check(bad == "" && ncommit > 0, "R11.6", key, w.Pos(fn.Pos()), "the committed query type was recorded only on the err == nil edge of its own probe", bad+mapStr(ncommit == 0, "the detected query type is never committed"))
 	}
 
 	// ---------------------------------------------------------------- R11.3
